@@ -72,13 +72,25 @@ def events(ctx, roles, T, f):
     return out
 
 
+def origin_defs(df, node, var, depth=0):
+    """Reaching definitions of var at node, with plain copies (`x = y`) replaced by the definitions of what they copy."""
+    out = set()
+    for d in df.reaching(node, var):
+        v = unawait(d.value) if d.kind == "assign" and d.value is not None and not d.path else None
+        if isinstance(v, ast.Name) and depth < 4:
+            out |= origin_defs(df, d.node, v.id, depth + 1)
+        else:
+            out.add(d)
+    return out
+
+
 def value_set(ctx, f, node, var, reads):
     """Possible commands of `var` at node: union of the expected sets of the READs defining it, refined by must-facts."""
     df = ctx.df(f)
-    ds = df.reaching(node, var)
+    ds = origin_defs(df, node, var)
     vals = set()
     for d in ds:
-        r = [e for e in reads if e.node is d.node and e.binds.get(0) == var and d.path == (0,)]
+        r = [e for e in reads if e.node is d.node and e.binds.get(0) == d.var and d.path == (0,)]
         if not r or r[0].expected is None:
             return None
         vals |= set(r[0].expected)
@@ -177,7 +189,7 @@ def _manager_connect(ctx, R, roles, T):
         if not okshape:
             continue
         mv = v.elts[1].id
-        ds = df.reaching(rn, mv)
+        ds = origin_defs(df, rn, mv)
         rk = [r for r in reads if any(d.node is r.node and d.path == (2,) for d in ds)]
         ok = len(ds) == 1 and len(rk) == 1
         R.check(ok, "HS-return", sub + "|maxdata", "maxdata is field 2 (arg1) of one device reply", "the maxdata returned is not field 2 (arg1) of a single device reply (%s)" % sorted(repr(d) for d in ds), f.loc(rn.ast))
@@ -232,7 +244,7 @@ def _manager_connect(ctx, R, roles, T):
                 "Sign() is called on `%s`, not on the loop variable `%s`" % (src(recv), keyvar), f.loc(sg.node.ast))
         tok = sg.call.args[0] if sg.call.args else None
         tv = varkey(unawait(tok)) if tok is not None else None
-        ds = df.reaching(sg.node, tv) if tv else set()
+        ds = origin_defs(df, sg.node, tv) if tv else set()
         fresh = bool(ds) and all(any(d.node is r.node and d.path == (3,) for r in reads) for d in ds)
         for rj in reads:
             if sg.node in g.reach([rj.node], avoid=[r.node for r in reads if r is not rj], exc=False):
@@ -246,7 +258,7 @@ def _manager_connect(ctx, R, roles, T):
             if r.binds.get(1):
                 a0v = r.binds[1]
         okt = a0v is not None and fact_const_eq(ctx, f, sg.node, a0v, AUTH_TOKEN, True)
-        ds1 = df.reaching(sg.node, a0v) if a0v else set()
+        ds1 = origin_defs(df, sg.node, a0v) if a0v else set()
         okt = okt and all(any(d.node is r.node and d.path == (1,) for r in reads) for d in ds1)
         R.check(okt, "HS-iter", q + "|token-type", "a challenge is signed only if its arg0 is AUTH_TOKEN (latest reply)",
                 "Sign() can run although the latest reply's arg0 was not checked to be AUTH_TOKEN", f.loc(sg.node.ast))
